@@ -194,7 +194,7 @@ func runC16(t *testing.T, s C16Scenario) (res Result) {
 				}
 			}
 			running = append(running, syncer)
-			o, ok := run(func() error { return syncer.Start(ctx) })
+			o, ok := run(func() error { return startScopedIn(ctx, syncer.Start) })
 			if !ok {
 				res.failf("%s: Start did not return within 2h of virtual time", tag)
 				return
